@@ -6,6 +6,10 @@ INT_W = {'u8': 8, 'i8': 8, 'u16': 16, 'i16': 16, 'u32': 32, 'i32': 32, 'u64': 64
 SIGNED = {'i8', 'i16', 'i32', 'i64', 'i128', 'isize'}
 
 
+class BudgetExhausted(Exception):
+    """the exploration budget (wall clock) of a scenario is used up; paths completed so far stay valid"""
+
+
 class Inconclusive(Exception):
     pass
 
